@@ -21,6 +21,9 @@ def evidence_lists(prog):
         res.append([[heads[-1], False]])
         if len(heads) > 1:
             res.append([[heads[0], True], [heads[-1], False]])
+            res.append([[heads[-1], False], [heads[0], True]])  # a negated literal before a positive one
+            if len(heads) > 2:
+                res.append([[heads[1], False], [heads[0], True], [heads[-1], True]])
             res.append([[heads[1], True]])
     out = []
     for r in res:
